@@ -102,7 +102,7 @@ package store
 //@ # changeHandler: which event announces a store mutation must agree with what get serves:
 //@ # a resource without a stored value is still served when a default value is configured
 //@ func (o *storeHandler) changeHandler(id string, before interface{}, after interface{})
-//@   requires o != nil && o.s != nil && o.s.Mux != nil && !isNil(o.s.logger)
+//@   requires o != nil && o.s != nil && muxOK(o.s.Mux) && !isNil(o.s.logger)
 //@   requires small: imp(typeIs(before, "[]store.Value"), len(unbox(before, "[]store.Value")) <= 1073741824) && imp(typeIs(after, "[]store.Value"), len(unbox(after, "[]store.Value")) <= 1073741824)
 //@   modifies all
 //@   ghost call Resource.CreateEvent#1 before :: assert create.only-if-unserved: imp(isNil(old(before)), ref(o.def) == 0)
@@ -130,7 +130,7 @@ package store
 //@ func (o *queryHandler) errorf(format string, v []interface{})
 //@   requires o != nil && o.s != nil
 //@ func (o *queryHandler) resourceEvent(rid string, qc QueryChange) (rerr error)
-//@   requires o != nil && o.s != nil && o.s.Mux != nil && !isNil(qc)
+//@   requires o != nil && o.s != nil && muxOK(o.s.Mux) && !isNil(qc)
 //@   modifies ghost.qevn, ghost.qrst, ghost.revn, alloc, res.Match.Handler, res.Match.Listeners, res.Match.Params, res.Match.Group, res.resource.rname, res.resource.pathParams, res.resource.query, res.resource.group, res.resource.h, res.resource.listeners, res.resource.s
 //@   callback rh rhCB
 //@   callsite Resource.AddEvent#1 builtin.qhAdd
@@ -145,11 +145,11 @@ package store
 //@   ensures failed: imp(!isNil(rerr), qrst == old(qrst))
 //@   loop 1 invariant -1 <= rangeindex && rangeindex < len(evs) + 0 && qevn == old(qevn) + rangeindex + 1 && qrst == old(qrst) && !reset && !isNil(r)
 //@ func (o *queryHandler) changeHandler(qc QueryChange)
-//@   requires o != nil && o.s != nil && o.s.Mux != nil && !isNil(qc)
+//@   requires o != nil && o.s != nil && muxOK(o.s.Mux) && !isNil(qc)
 //@   modifies ghost.qevn, ghost.qrst, ghost.revn, alloc, res.Match.Handler, res.Match.Listeners, res.Match.Params, res.Match.Group, res.resource.rname, res.resource.pathParams, res.resource.query, res.resource.group, res.resource.h, res.resource.listeners, res.resource.s
 //@   callback ar arCB
 //@   # without an AffectedResources callback the handler's own pattern is the one resource examined
 //@   ensures plain: imp(old(o.ar == nil), revn == old(revn) + 1)
 //@   # with it every listed resource is examined once, in order, up to the first failure
 //@   ghost exit :: assert listed: imp(old(o.ar != nil), old(revn) <= revn && revn <= old(revn) + len(rids))
-//@   loop 1 invariant -1 <= rangeindex && rangeindex < len(rids) + 0 && revn == old(revn) + rangeindex + 1 && o != nil && o.s != nil && o.s.Mux != nil
+//@   loop 1 invariant -1 <= rangeindex && rangeindex < len(rids) + 0 && revn == old(revn) + rangeindex + 1 && o != nil && o.s != nil && muxOK(o.s.Mux)
